@@ -507,4 +507,32 @@ example : NormalEq [[([0], [1])], [([1], [3])]] 1 0 0 (fun j => if j = 0 then 2 
   intro i hi
   interval_cases i <;> norm_num [applyA, linregA, linregRhs, bsum, lsum, rsum, ext1, Vec.at]
 
+/-- non-vacuity of `whitening_output`: the points −1, 1 (covariance 1), factor `C = (1)`, `t = 4 = 2·2` -/
+example : ([[[-1], [1]]] : List (List Vec)).flatten ≠ [] ∧ (2 : Rat) * 2 = 4 ∧
+    ∀ a, a < 1 → ∀ b, b < 1 →
+      rsum 1 (fun i => rsum 1 (fun j => (fun _ _ : Nat => (1 : Rat)) a i * covariance [[[-1], [1]]] i j
+        * (fun _ _ : Nat => (1 : Rat)) b j)) = if a = b then 1 else 0 := by
+  refine ⟨by simp, by norm_num, ?_⟩
+  intro a ha b hb
+  interval_cases a; interval_cases b
+  norm_num [rsum, covariance, mean, bsum, lsum, count, Vec.at]
+
+/-- non-vacuity of `zca_output` / `pca_encoded_covariance`: the same data, `Q = (1)`, `D = (1)`, `s = (1)` -/
+example : (∀ k, k < 1 → ∀ l, l < 1 → rsum 1 (fun i => (fun _ _ : Nat => (1 : Rat)) i k * (fun _ _ : Nat => (1 : Rat)) i l)
+      = if k = l then 1 else 0)
+    ∧ (∀ i, i < 1 → ∀ j, j < 1 → covariance [[[-1], [1]]] i j
+      = rsum 1 (fun k => (fun _ _ : Nat => (1 : Rat)) i k * (fun _ : Nat => (1 : Rat)) k * (fun _ _ : Nat => (1 : Rat)) j k))
+    ∧ ∀ k, k < 1 → (fun _ : Nat => (1 : Rat)) k * (fun _ : Nat => (1 : Rat)) k * (fun _ : Nat => (1 : Rat)) k = 1 := by
+  refine ⟨?_, ?_, ?_⟩
+  · intro k hk l hl; interval_cases k; interval_cases l; norm_num [rsum]
+  · intro i hi j hj; interval_cases i; interval_cases j
+    norm_num [rsum, covariance, mean, bsum, lsum, count, Vec.at]
+  · intro k _; norm_num
+
+/-- non-vacuity of `weights_scale_invariant` is immediate (`s = 2`); of `fisher_mean`: labels below the class count -/
+example : ∀ p ∈ ([[([0], 0), ([2], 1)]] : CData).flatten, p.2 < 2 := by
+  intro p hp
+  simp at hp
+  rcases hp with rfl | rfl <;> simp
+
 end SharkVerif.C15
